@@ -11,4 +11,7 @@ if ! diff -u work/optable.py.txt work/optable.rs.txt; then
   echo "setup: refpvm opcode table differs from CPython pickletools" >&2
   exit 1
 fi
+# refpvm (lexer + machine) vs CPython pickletools on generator outputs, corrupted outputs and random
+# opcode streams: any disagreement is a harness defect and must surface here, not as a false alarm
+./target/harness/release/pfverif selftest 9000
 echo "setup: ok (refpvm opcode table == pickletools.opcodes of $(python3 -V 2>&1))"
